@@ -20,17 +20,19 @@ ASSUMPTIONS = [
     "dt in [1e-4, 1]; records longer than scipy's default filtfilt edge padding 3*(2*order+1) (shorter ones are rejected by "
     "scipy itself)",
     "'away from the ends of a record much longer than the longest cut-off period': the sinusoid record holds 60..90 periods of "
-    "the lowest cut-off (>= 150 samples) and the middle third is compared; tolerance 2e-3 of the sinusoid amplitude (edge "
-    "transients after >= 20 periods are < 1e-6 for every design in the domain; the worst measured error of a "
-    "well-conditioned design is 2e-4)",
+    "the lowest cut-off (>= 150 samples) and the middle third is compared; tolerance 2e-3 of the sinusoid amplitude (measured: edge "
+    "transients after >= 20 periods <= 1e-4, worst for an order-4 band of ratio 1.5 near Nyquist; rounding error of a design that "
+    "passes the conditioning guard <= 0.8*u*kappa <= 2e-4)",
     "sinusoid frequencies: 0 < f <= 0.99 of Nyquist, placed by inverting the analytic gain at a drawn target gain in the pass "
     "(g >= 0.9), transition or stop (g <= 0.01, target >= 1e-6) band; the class is decided from the gain at the frequency actually used",
     "conditioning guard (known finding C17-KF1): a design counts as well conditioned when (A) the roots (numpy.roots) of scipy's "
     "(b, a) denominator reproduce every designed pole p (butter(..., output='zpk')) to within 1e-3*(1-|p|) [DESIGN 3/C17] and "
     "(B) u*sum|a_k| / min_w |prod_k (e^{jw} - p_k)| <= 2.5e-4, u = 2^-53 [added: first-order bound on the relative gain error caused "
     "by rounding the denominator coefficients; (A) alone samples one realisation of the rounding noise and let through designs "
-    "with a gain error of 6e-3]; designs failing the guard (band-pass of order >= 3 with a very low lower cut-off) are checked "
-    "for length and dt only while C17-KF1 is open and against the full statement in strict mode",
+    "with a gain error of 6e-3]; designs failing the guard (band-pass only: order 3 with f_lo/f_Nyq < 0.008 and "
+    "ratio <= 5, order 4 with f_lo/f_Nyq < 0.027 and ratio <= 30; never low / high pass or orders 1-2 inside the domain) are "
+    "checked for length, npts and dt only while C17-KF1 is open (scipy's own 'Filter not stable' ValueError is tolerated there) "
+    "and against the full statement in strict mode",
     "linearity tolerance 16*eps*(kappa+4)*scale with kappa = sum|a_k|/min_w|A(e^{jw})| of the design and scale = "
     "|alpha|*max|x| + |beta|*max|y|: rounding errors of relative size eps injected per sample are amplified by at most the "
     "peak gain of 1/A; measured worst case 2*eps*kappa*scale (DESIGN's flat 1e-9*scale is exceeded by rounding alone, up to "
@@ -219,6 +221,13 @@ def _designs(draw, risky_share=12):
     return order, cut, dt
 
 
+def _design_in_domain(order, cut, dt):
+    wn = [w for w in _wn(cut, dt) if w is not None]
+    return bool(order in (1, 2, 3, 4) and len(cut) == 2 and 1 <= len(wn) <= 2
+                and all(WN_LO * (1 - 1e-9) <= w <= WN_HI * (1 + 1e-9) for w in wn)
+                and (len(wn) == 1 or wn[1] >= MIN_RATIO * wn[0] * (1 - 1e-9)))
+
+
 def _design_classes(ctx, order, cut, dt):
     kind = _ftype(cut)
     ctx.cls("type=" + kind, "order=%d" % order)
@@ -269,84 +278,95 @@ def _gain_cases(draw):
         call = "defaults"
     elif gibbs is None and draw(st.booleans()):
         call = "kw-none"
-    band = draw(st.sampled_from(["pass", "transition", "stop"]))
-    if band == "pass":
-        g = draw(st.one_of(st.floats(0.9, 0.999), st.sampled_from([0.999999, 0.99])))
-    elif band == "transition":
-        g = draw(st.one_of(st.floats(0.011, 0.899), st.just(0.5)))
-    else:
-        g = draw(gen.log_uniform(1e-6, 0.0099))
     nyq = 0.5 / dt
-    f = _freq_for_gain(order, cut, dt, g, draw(st.booleans()))
-    f = float(min(f, F_MAX * nyq))
-    return {"order": order, "cut": cut, "dt": dt, "f": f, "phase": draw(st.floats(0.0, 6.2831, allow_nan=False)),
+    fs = []
+    for band in ("pass", "transition", "stop"):  # one sinusoid per band in every case
+        if band == "pass":
+            g = draw(st.one_of(st.floats(0.9, 0.999), st.sampled_from([0.999999, 0.99])))
+        elif band == "transition":
+            g = draw(st.one_of(st.floats(0.011, 0.899), st.just(0.5)))
+        else:
+            g = draw(gen.log_uniform(1e-6, 0.0099))
+        f = _freq_for_gain(order, cut, dt, g, draw(st.booleans()))
+        fs.append(float(min(f, F_MAX * nyq)))
+    return {"order": order, "cut": cut, "dt": dt, "fs": fs, "phase": draw(st.floats(0.0, 6.2831, allow_nan=False)),
             "amp": draw(st.sampled_from([0, 0, -3, 3])), "gibbs": gibbs, "extra": draw(st.sampled_from([1, 2])),
             "periods": draw(st.integers(60, 90)), "container": draw(st.sampled_from(CONTAINERS)), "call": call}
 
 
-def _sinusoid(case):
+def _freqs(case):
+    """Sinusoid frequencies of a case: 'fs' (generated cases: one per band) or a single 'f' (hand-written cases)."""
+    return [float(f) for f in case["fs"]] if "fs" in case else [float(case["f"])]
+
+
+def _sinusoid(case, f=None):
     cut, dt = case["cut"], case["dt"]
+    f = _freqs(case)[0] if f is None else f
     f_lo = min(float(c) for c in cut if c is not None)
     n = max(150, int(math.ceil(case["periods"] / (f_lo * dt))))
     i = np.arange(n, dtype=float)
-    return (10.0 ** case.get("amp", 0)) * np.sin((2.0 * math.pi * case["f"] * dt) * i + case["phase"])
+    return (10.0 ** case.get("amp", 0)) * np.sin((2.0 * math.pi * f * dt) * i + case["phase"])
 
 
-@clause(CLAUSES, "butter-gain", _gain_cases(), quick=500, thorough=2500,
+@clause(CLAUSES, "butter-gain", _gain_cases(), quick=500, thorough=1600,
         rule="x = A sin(2 pi f t + phi) over 60-90 periods of the lowest cut-off; low / high / band pass, orders 1-4, normalised "
              "cut-offs log-uniform on [0.002, 0.8] (+ end points, + the documented default call, + 1 in 12 order-3/4 band-pass "
-             "designs with a very low lower cut-off), remove_gibbs in {None,start,end,mid}, gibbs_extra in {1,2}, f placed in "
-             "the pass / transition / stop band by a drawn target gain, cut-offs as list / tuple / ndarray; "
+             "designs with a very low lower cut-off), remove_gibbs in {None,start,end,mid}, gibbs_extra in {1,2}, three "
+             "sinusoids per case, f placed in the pass / transition / stop band by drawn target gains, cut-offs as list / tuple / "
+             "ndarray; "
              "non-trivial = design passes the conditioning guard, so the gain is asserted",
         oracle="reference model: middle third == g(f) * x with g the closed-form squared magnitude of the bilinear-transformed "
                "Butterworth filter in t = tan(pi f dt) (validated at import against scipy's zpk design), tolerance 2e-3 * A; "
                "length, npts, dt preserved; list / tuple / ndarray cut-offs give array_equal outputs",
-        require={"band=pass": 0.2, "band=transition": 0.2, "band=stop": 0.2, "gibbs=None": 0.1, "gibbs=start": 0.08,
-                 "gibbs=end": 0.08, "gibbs=mid": 0.08, "type=low": 0.1, "type=high": 0.1, "type=band": 0.2, "guarded": 0.01,
-                 "cut=ndarray": 0.12, "cut=list": 0.12, "cut=tuple": 0.12, "order=1": 0.08, "order=2": 0.08, "order=3": 0.08,
-                 "order=4": 0.08, "call=default-cut": 0.01},
+        require={"band=pass": 0.35, "band=transition": 0.35, "band=stop": 0.35, "gibbs=None": 0.08, "gibbs=start": 0.05,
+                 "gibbs=end": 0.05, "gibbs=mid": 0.05, "type=low": 0.1, "type=high": 0.1, "type=band": 0.15, "guarded": 0.01,
+                 "cut=ndarray": 0.08, "cut=list": 0.08, "cut=tuple": 0.08, "order=1": 0.05, "order=2": 0.05, "order=3": 0.05,
+                 "order=4": 0.05, "call=default-cut": 0.01},
         min_nontrivial=0.6)
 def butter_gain(case, ctx):
-    order, cut, dt, f = case["order"], case["cut"], case["dt"], case["f"]
+    order, cut, dt = case["order"], case["cut"], case["dt"]
+    freqs = _freqs(case)
     gibbs, extra, call = case.get("gibbs"), case.get("extra", 1), case.get("call", "kw")
     nyq = 0.5 / dt
-    wn = [w for w in _wn(cut, dt) if w is not None]
-    if not (1 <= order <= 4 and all(WN_LO * (1 - 1e-9) <= w <= WN_HI * (1 + 1e-9) for w in wn) and 0 < f <= F_MAX * nyq * (1 + 1e-9)
-            and (len(wn) == 1 or wn[1] >= MIN_RATIO * wn[0] * (1 - 1e-9))):
+    if not (_design_in_domain(order, cut, dt) and all(0 < f <= F_MAX * nyq * (1 + 1e-9) for f in freqs)):
         raise ValueError("case outside the domain of clause butter-gain")
-    x = _sinusoid(case)
-    n = len(x)
     amp = 10.0 ** case.get("amp", 0)
-    g = analytic_gain(order, cut, f, dt)
     _design_classes(ctx, order, cut, dt)
-    ctx.cls("band=pass" if g >= 0.9 else ("band=stop" if g <= 0.01 else "band=transition"), "gibbs=%s" % gibbs,
-            "cut=" + case["container"], "call=" + call)
+    ctx.cls("gibbs=%s" % gibbs, "cut=" + case["container"], "call=" + call)
     if gibbs is not None:
         ctx.cls("extra=%d" % extra)
     kwargs = _butter_kwargs(order, gibbs, extra, call)
+    no_cut = call == "default-cut"
+    cut_arg = _cut_arg(cut, case["container"])
     cond = conditioning(order, cut, dt)
     ctx.notes["u*kappa"] = U * cond["kappa"]
-    guarded = not cond["ok"]
-    if guarded:
+    if not cond["ok"]:
         ctx.cls("guarded")
         if ctx.kf("C17-KF1"):
             # known finding: (b, a) form ill-conditioned for this design; only length / npts / dt (asserted inside _filtered)
-            _filtered(ctx, x, dt, _cut_arg(cut, case["container"]), kwargs, relaxed=True)
+            _filtered(ctx, _sinusoid(case), dt, cut_arg, kwargs, no_cut=no_cut, relaxed=True)
             return
     else:
         ctx.nt()
-    y = _filtered(ctx, x, dt, _cut_arg(cut, case["container"]), kwargs, no_cut=(call == "default-cut"))
-    lo, hi = n // 3, (2 * n) // 3
-    ctx.finite(y[lo:hi], "filtered sinusoid (middle third)")
-    ctx.close(y[lo:hi], g * x[lo:hi], GAIN_TOL * amp,
-              "middle third of the filtered sinusoid vs g(f)*x (g=%.6g, order %d, cut-offs %r Hz, f=%r Hz, dt=%r, remove_gibbs=%r)" % (
-                  g, order, cut, f, dt, gibbs))
-    # the same request spelled with the other containers
-    for cont in CONTAINERS:
-        if cont == case["container"] and call != "default-cut":
+    for k, f in enumerate(freqs):
+        x = _sinusoid(case, f)
+        n = len(x)
+        g = analytic_gain(order, cut, f, dt)
+        ctx.cls("band=pass" if g >= 0.9 else ("band=stop" if g <= 0.01 else "band=transition"))
+        y = _filtered(ctx, x, dt, cut_arg, kwargs, no_cut=no_cut)
+        lo, hi = n // 3, (2 * n) // 3
+        ctx.finite(y[lo:hi], "filtered sinusoid (middle third)")
+        ctx.close(y[lo:hi], g * x[lo:hi], GAIN_TOL * amp,
+                  "middle third of the filtered sinusoid vs g(f)*x (g=%.6g, order %d, cut-offs %r Hz, f=%r Hz, dt=%r, remove_gibbs=%r)" % (
+                      g, order, cut, f, dt, gibbs))
+        if k > 0:
             continue
-        y2 = _filtered(ctx, x, dt, _cut_arg(cut, cont), _butter_kwargs(order, gibbs, extra, "kw"))
-        ctx.equal(y2, y, "cut-offs given as %s vs %s" % (cont, "the default argument" if call == "default-cut" else case["container"]))
+        # the same request spelled with the other containers
+        for cont in CONTAINERS:
+            if cont == case["container"] and not no_cut:
+                continue
+            y2 = _filtered(ctx, x, dt, _cut_arg(cut, cont), _butter_kwargs(order, gibbs, extra, "kw"))
+            ctx.equal(y2, y, "cut-offs given as %s vs %s" % (cont, "the default argument" if no_cut else case["container"]))
 
 
 # ---------------------------------------------------------------------------
@@ -363,52 +383,52 @@ def _linear_cases(draw):
     ra = draw(gen.record_specs(min_n=n, max_n=n, small_max=n, kinds=kinds, allow_zero_runs=False))
     rb = draw(gen.record_specs(min_n=n, max_n=n, small_max=n, kinds=kinds, allow_zero_runs=False))
     return {"order": order, "cut": cut, "dt": dt, "ra": ra, "rb": rb, "alpha": draw(gen.scalars()), "beta": draw(gen.scalars()),
-            "gibbs": draw(st.sampled_from(GIBBS)), "extra": draw(st.sampled_from([1, 2])),
-            "container": draw(st.sampled_from(CONTAINERS))}
+            "extra": draw(st.sampled_from([1, 2])), "container": draw(st.sampled_from(CONTAINERS))}
 
 
-@clause(CLAUSES, "butter-linear", _linear_cases(), quick=300, thorough=2000,
+@clause(CLAUSES, "butter-linear", _linear_cases(), quick=200, thorough=800,
         rule="pairs of records of all kinds with equal length 32..3000, alpha / beta signed log-uniform on [1e-3,1e3] or powers of "
-             "two, designs as in butter-gain, all Gibbs modes, gibbs_extra in {1,2}; "
-             "non-trivial = both records non-zero and the design passes the conditioning guard",
+             "two, designs as in butter-gain, every case filtered with each of remove_gibbs in {None,start,end,mid}, gibbs_extra "
+             "in {1,2}; non-trivial = both records non-zero and the design passes the conditioning guard",
         oracle="metamorphic: filter(alpha x + beta y) == alpha filter(x) + beta filter(y) within 16 eps (kappa+4) (|alpha| max|x| + "
                "|beta| max|y|), kappa = conditioning of the (b, a) denominator; length / npts / dt preserved; inputs not modified",
-        require={"gibbs=None": 0.1, "gibbs=start": 0.06, "gibbs=end": 0.06, "gibbs=mid": 0.06, "extra=2": 0.1, "type=band": 0.15,
-                 "type=low": 0.1, "type=high": 0.1},
+        require={"extra=2": 0.1, "type=band": 0.1, "type=low": 0.1, "type=high": 0.1},
         min_nontrivial=0.5)
 def butter_linear(case, ctx):
     order, cut, dt = case["order"], case["cut"], case["dt"]
-    gibbs, extra = case.get("gibbs"), case.get("extra", 1)
+    extra = case.get("extra", 1)
     x = gen.build(case["ra"])
     y = gen.build(case["rb"])
-    if len(x) != len(y) or len(x) < 32:
+    if len(x) != len(y) or len(x) < 32 or not _design_in_domain(order, cut, dt):
         raise ValueError("case outside the domain of clause butter-linear")
     al, be = float(case["alpha"]), float(case["beta"])
     _design_classes(ctx, order, cut, dt)
-    ctx.cls("gibbs=%s" % gibbs, gen.size_class(len(x)), "kind=" + case["ra"]["k"])
-    if gibbs is not None:
-        ctx.cls("extra=%d" % extra)
-    kwargs = _butter_kwargs(order, gibbs, extra)
+    ctx.cls("extra=%d" % extra, gen.size_class(len(x)), "kind=" + case["ra"]["k"], "cut=" + case.get("container", "tuple"))
     cut_arg = _cut_arg(cut, case.get("container", "tuple"))
     x0, y0 = x.copy(), y.copy()
+    comb = al * x + be * y
     cond = conditioning(order, cut, dt)
+    relaxed = False
     if not cond["ok"]:
         ctx.cls("guarded")
-        if ctx.kf("C17-KF1"):
-            for rec in (x, y, al * x + be * y):
-                _filtered(ctx, rec, dt, cut_arg, kwargs, relaxed=True)
-            return
-    fx = _filtered(ctx, x, dt, cut_arg, kwargs)
-    fy = _filtered(ctx, y, dt, cut_arg, kwargs)
-    fc = _filtered(ctx, al * x + be * y, dt, cut_arg, kwargs)
-    ctx.equal(x, x0, "record modified by Signal(...).butter_pass")
-    ctx.equal(y, y0, "record modified by Signal(...).butter_pass")
+        relaxed = ctx.kf("C17-KF1")
     scale = abs(al) * float(np.max(np.abs(x))) + abs(be) * float(np.max(np.abs(y)))
     ctx.nt(bool(cond["ok"] and np.any(x != 0) and np.any(y != 0)))
-    ctx.finite(fc, "filtered combination")
-    ctx.close(fc, al * fx + be * fy, 16 * EPS * (cond["kappa"] + 4) * scale,
-              "filter(alpha x + beta y) vs alpha filter(x) + beta filter(y) (order %d, cut-offs %r Hz, dt=%r, remove_gibbs=%r, "
-              "gibbs_extra=%d, u*kappa=%.2e)" % (order, cut, dt, gibbs, extra, U * cond["kappa"]))
+    for gibbs in case.get("modes", GIBBS):
+        kwargs = _butter_kwargs(order, gibbs, extra)
+        if relaxed:  # known finding: only length / npts / dt (asserted inside _filtered)
+            for rec in (x, y, comb):
+                _filtered(ctx, rec, dt, cut_arg, kwargs, relaxed=True)
+            continue
+        fx = _filtered(ctx, x, dt, cut_arg, kwargs)
+        fy = _filtered(ctx, y, dt, cut_arg, kwargs)
+        fc = _filtered(ctx, comb, dt, cut_arg, kwargs)
+        ctx.finite(fc, "filtered combination")
+        ctx.close(fc, al * fx + be * fy, 16 * EPS * (cond["kappa"] + 4) * scale,
+                  "filter(alpha x + beta y) vs alpha filter(x) + beta filter(y) (order %d, cut-offs %r Hz, dt=%r, remove_gibbs=%r, "
+                  "gibbs_extra=%d, u*kappa=%.2e)" % (order, cut, dt, gibbs, extra, U * cond["kappa"]))
+    ctx.equal(x, x0, "record modified by Signal(...).butter_pass")
+    ctx.equal(y, y0, "record modified by Signal(...).butter_pass")
 
 
 # ---------------------------------------------------------------------------
@@ -443,7 +463,7 @@ def _detrend_cases(draw):
             "form": draw(st.sampled_from(["kw", "pos"])), "section": section}
 
 
-@clause(CLAUSES, "detrend", _detrend_cases(), quick=400, thorough=2500,
+@clause(CLAUSES, "detrend", _detrend_cases(), quick=400, thorough=1600,
         rule="records of all kinds (n k+4..5000; float, integer-dtype and list containers), degree k in 0..4, a polynomial of degree "
              "<= k with coefficients U(-100,100)*max|record| in the Legendre-scaled index, keyword / positional call forms, "
              "remove_average with the default / a positive / a negative section; "
@@ -451,7 +471,7 @@ def _detrend_cases(draw):
         oracle="reference model (orthonormal polynomial basis on the sample grid, QR): removed part r = x - out has r - P_k r == 0 and "
                "a vanishing (k+1)-th finite difference; P_k out == 0; remove_poly(out) == out; remove_poly(x + p) == out; "
                "Signal.remove_poly == fns.remove_poly (all 1e-8 max|.|); remove_average subtracts mean(x[:section]) ((n+8) eps max|x|)",
-        require={"k=0": 0.05, "k=1": 0.05, "k=2": 0.05, "k=3": 0.05, "k=4": 0.04, "n>512": 0.05}, min_nontrivial=0.5)
+        require={"k=0": 0.03, "k=1": 0.03, "k=2": 0.03, "k=3": 0.03, "k=4": 0.03, "n>512": 0.05}, min_nontrivial=0.5)
 def detrend(case, ctx):
     spec = case["rec"]
     k = int(case["k"])
@@ -523,7 +543,8 @@ def detrend(case, ctx):
     if len(part) == 0:
         raise ValueError("case outside the domain of clause detrend (empty section)")
     mean = float(np.sum(part.astype(LD)) / len(part))
-    ctx.close(out, x - mean, (n + 8) * EPS * scale, "remove_average(section=%r) vs x - mean(x[:section])" % (section,))
+    ctx.close(out, x - mean, (n + 8) * EPS * scale,
+              "remove_average(%s) vs x - mean(x[:section])" % ("default section=-1" if section is None else "section=%d" % section))
 
 
 # ---------------------------------------------------------------------------
@@ -567,7 +588,7 @@ def _add_cases(draw):
     return case
 
 
-@clause(CLAUSES, "add", _add_cases(), quick=400, thorough=2500,
+@clause(CLAUSES, "add", _add_cases(), quick=400, thorough=1600,
         rule="records of all kinds (n 2..2000; float / integer-dtype / list) in a Signal or AccSignal; add_constant (float / int), "
              "add_series (ndarray / list / tuple; right length, or off by +-1, empty, any other length), add_signal (Signal / "
              "AccSignal with equal dt, with dt scaled by {.5,2,1.001,.999,1.1,10}, wrong length, or a non-Signal: None, ndarray, "
@@ -575,7 +596,7 @@ def _add_cases(draw):
         oracle="reference model: element-wise Python additions (==); SignalProcessingError for wrong length / dt / type with the "
                "signal left unchanged; npts and dt preserved, the added object not modified",
         require={"op=constant": 0.05, "op=series": 0.1, "op=signal": 0.2, "reject-length": 0.08, "reject-dt": 0.03,
-                 "reject-type": 0.03, "accepted": 0.3},
+                 "reject-type": 0.03, "accepted": 0.2},
         min_nontrivial=0.5)
 def add(case, ctx):
     spec = case["rec"]
@@ -674,12 +695,12 @@ def _avg_cases(draw):
             "self": draw(st.sampled_from(["Signal", "AccSignal"]))}
 
 
-@clause(CLAUSES, "running-average", _avg_cases(), quick=400, thorough=2500,
+@clause(CLAUSES, "running-average", _avg_cases(), quick=400, thorough=1600,
         rule="float records of all kinds (n 2..3000), width 1..25 (odd and even, also wider than the record), Signal / AccSignal, "
              "keyword / positional call; non-trivial = floor(w/2) >= 1 and the record is not constant",
         oracle="reference model: loop over i, long-double mean of the ORIGINAL samples j with |j-i| <= floor(w/2), 0 <= j < n; "
                "tolerance 1e-12 max|record|; length, npts, dt preserved; the caller's array untouched",
-        require={"w>=3": 0.5, "w=1": 0.02, "w=2": 0.02, "w>n": 0.01, "even-w": 0.15, "n>64": 0.15},
+        require={"w>=3": 0.4, "w=1": 0.02, "w=2": 0.02, "w>n": 0.01, "even-w": 0.1, "n>64": 0.15},
         min_nontrivial=0.5)
 def running_average(case, ctx):
     spec = case["rec"]
